@@ -421,9 +421,11 @@ impl Variable {
             Comparator::Equal => Some(*self == *value),
             Comparator::NotEqual => Some(*self != *value),
             Comparator::LessThan => Some(*self < *value),
-            Comparator::LessThanEqual => Some(*self <= *value),
+            // `==` tolerates a relative error of one epsilon between floats, the
+            // ordering does not: keep `a <= b` equivalent to `a < b || a == b`.
+            Comparator::LessThanEqual => Some(*self < *value || *self == *value),
             Comparator::GreaterThan => Some(*self > *value),
-            Comparator::GreaterThanEqual => Some(*self >= *value),
+            Comparator::GreaterThanEqual => Some(*self > *value || *self == *value),
         }
     }
 
